@@ -383,6 +383,11 @@ StreamsManagerBase<MAX_STREAMS> {
              std::mem::size_of::<Option<Waker>>())
         }
     }
+    /// how many stream ids are vacant right now (read without scheduling points)
+    pub fn verif_vacant_count(&self) -> u32 {
+        let c = self.vacant_streams.verif_counters();
+        c[1].wrapping_sub(c[0])
+    }
 }
 
 // TODO: 2023-06-14: Needed while `SyncUnsafeCell` is still not stabilized
